@@ -352,7 +352,7 @@ func (g *Gen) stmt(depth int) string {
 		var hdr string
 		if r.Bool() {
 			hdr = v + "=" + e
-			if r.Chance(30) {
+			if r.Chance(30) && !g.o.Deterministic { // the evaluation order of several pairs follows Go's map order
 				hdr += " other=" + g.expr(1)
 			}
 		} else {
@@ -372,10 +372,12 @@ func (g *Gen) stmt(depth int) string {
 		name := fmt.Sprintf("m%d", r.Intn(1000))
 		nargs := r.Intn(4)
 		var params []string
+		hasDefault := false
 		for i := 0; i < nargs; i++ {
 			p := fmt.Sprintf("p%d", i)
-			if r.Chance(40) {
+			if r.Chance(40) && !(g.o.Deterministic && hasDefault) {
 				p += "=" + g.atom(0)
+				hasDefault = true
 			}
 			params = append(params, p)
 		}
@@ -442,7 +444,7 @@ func (g *Gen) stmt(depth int) string {
 		}
 		if r.Chance(40) {
 			s += " with " + g.ident() + "=" + g.expr(1)
-			if r.Chance(40) {
+			if r.Chance(40) && !g.o.Deterministic {
 				s += " " + g.ident() + "2=" + g.atom(0)
 			}
 			if r.Chance(40) {
